@@ -187,6 +187,18 @@ def oracleC08 (op : String) (args : List Bytes) (impl : String) : String × Stri
         | [g, c, _] => g ++ "|" ++ c
         | _ => impl
       if implCore == exp then ("ok", nt) else (s!"fail:spec={exp}", nt)
+  | "summary.ops" =>
+    -- is_completed() through the setter API: true exactly when the eleven have a value
+    match args.mapM decodeCall with
+    | none => ("na", "bad-call")
+    | some calls =>
+      let fin := finalValues calls
+      let complete := S.required.all fun v => (fin v).isSome
+      let emptied := S.table.any fun (v, _) => match fin v with | some (.a l) => l.isEmpty | _ => false
+      let nt := if emptied || !complete then "nt" else ""
+      match impl.splitOn "|" with
+      | [_, comp, _, _] => if comp == b complete then ("ok", nt) else ("fail:is_completed", nt)
+      | _ => (if impl == "PANIC" then "fail:panic" else "fail:malformed-result", nt)
   | "str.lines" =>
     match args[0]? with
     | some t =>
